@@ -16,7 +16,7 @@ TV_KERNELS = ['acq', 'ipow', 'ps0', 'acq_mat', 'batch_dot', 'pauli_tokenize', 'p
               'pauli_is_onsite', 'pauli_diagonalize1', 'map_to_state', 'state_to_map', 'stabilizer_project', 'stabilizer_expect', 'stabilizer_entropy', 'z2rank', 'aggregate']
 BOUNDS = {'quick': 'N<=2, lists L<=2, every array entry / phase / sign symbolic, one obligation set per shared function pair',
           'thorough': 'N<=3 for fork-free kernels'}
-OUTSIDE = 'GPU devices; torch functions that need an API outside the stand-in (reported as not encoded = harness error, never as agreement); float32 rounding beyond |v| < 2**24'
+OUTSIDE = 'single-precision evaluation inside torchclifford (complex64 default coefficients; 1j**p via a complex64 power is off by 1e-7, pinned by torchclifford test_PauliPolynomial): numbers are compared exactly in the encoding and to 1e-6 relative in replays on the real build; GPU devices; torch functions that need an API outside the stand-in (reported as not encoded = harness error, never as agreement); float32 rounding beyond |v| < 2**24'
 ASSUMPTIONS = ['torch stand-in: tensor operations follow the PyTorch documentation on small integer-valued tensors; torch.linalg.matrix_rank is the exact rational rank',
                'inputs well formed as in the numpy package (binary strings, phases 0..3, Hermitian generators/observables, valid maps, Inv states)']
 STUBS = ['torch -> tensor stand-in over numpy object arrays', 'torch.jit.script -> identity', 'torch.randint -> fresh solver variables']
@@ -76,6 +76,14 @@ def same(a, b):
     if isinstance(a, (bool, np.bool_)) or isinstance(b, (bool, np.bool_)) or (isinstance(a, SV) and a.kind == 'b') or (isinstance(b, SV) and b.kind == 'b'):
         return eq(to_bool(a) if not isinstance(a, (int, float, np.number)) or isinstance(a, (bool, np.bool_)) else compare('!=', a, 0),
                   to_bool(b) if not isinstance(b, (int, float, np.number)) or isinstance(b, (bool, np.bool_)) else compare('!=', b, 0))
+    if isinstance(a, (float, complex, np.floating, np.complexfloating)) or isinstance(b, (float, complex, np.floating, np.complexfloating)):
+        # concrete floating-point results (replays, witness validation): torchclifford computes coefficients in single
+        # precision (complex64 default coefficients, 1j**p through a complex64 power: 1j**2 = -1-8.7e-08j), so the
+        # numbers agree with pyclifford's float64 ones only to about 1e-7; the solver side compares exact values
+        try:
+            return abs(complex(a) - complex(b)) <= 1e-6 * max(1.0, abs(complex(a)), abs(complex(b)))
+        except TypeError:
+            pass
     ar, ai = parts(a)
     br, bi = parts(b)
     return b_and(eq(ar, br), eq(ai, bi))
@@ -482,6 +490,8 @@ def jobs(tier):
     for N, q in ((3, [2, 0]), (4, [0, 3, 2]), (4, [1, 0, 3]), (4, [3, 1])) + (((4, [2, 3, 0]), (4, [3, 2, 1])) if tier == 'thorough' else ()):
         for kind in ('gen', 'fmap') if len(q) < 3 else ('gen',):
             for direction in ('forward', 'backward'):
+                if kind == 'fmap' and direction == 'backward':
+                    continue            # inverting a symbolic two-qubit map forks on every bit of the inverse (see h_map_ops)
                 J.append(dict(harness=('c13', 'h_circuit_ops'), params=dict(N=N, prog=[[kind, q]], config='plain', direction=direction), timeout_s=300, max_paths=4000, cost=20))
     # the layer-packing lemma on the torch circuit classes (same structural obligations as C09 on pyclifford)
     for N in (2, 3):
